@@ -59,8 +59,13 @@ class FindChild(Contract):
                                     patterns=lambda y: [H.mem(P, y)]))
         notfound = forall_nodes(1, lambda y: z3.Implies(H.mem(P, y), z3.Not(fc_match(cx.W, H, ct, idv, y))),
                                 patterns=lambda y: [H.mem(P, y)])
-        return [Case('found', ret=STuple([rv, SInt(H.pos(P, r))]), assume=[found]),
-                Case('notfound', ret=STuple([NONE, NONE]), assume=[notfound])]
+        def eff_found(st):
+            st.addlog.append(('found', r, P))
+
+        def eff_none(st):
+            st.addlog.append(('found', null, P))
+        return [Case('found', ret=STuple([rv, SInt(H.pos(P, r))]), assume=[found], effect=eff_found),
+                Case('notfound', ret=STuple([NONE, NONE]), assume=[notfound], effect=eff_none)]
 
     def loop(self, ordinal):
         if ordinal == 0:
